@@ -170,7 +170,7 @@ func TestC16(t *testing.T) {
 			}
 		}
 	}
-	parallelDo(len(sc)*r.N(1, 8), 8, func(i int) { runC16Scripted(r, r.Seed*617+int64(i)+1, sc[i%len(sc)]) })
+	parallelDo(len(sc)*r.N(1, 8), 8, func(i int) { runC16Scripted(r, r.Seed*617+int64(i)+1, sc[i%len(sc)], "C16") })
 	r.Sample(map[string]any{"case": "lbtc/in victim=alice cut at msg.send:42069", "meaning": "swap-in initiator whose peer dies right when the request leaves; must end SwapCanceled after the negotiation timeout"})
 	r.Require(len(cases) >= 150, fmt.Sprintf("only %d prefix cuts", len(cases)))
 }
@@ -321,7 +321,7 @@ func TestC17(t *testing.T) {
 // runC16Scripted drives a real maker (both maker roles, both chains) to the point where its opening transaction is
 // announced; the scripted taker then behaves as c.behave says and goes silent. The drain procedure follows (blocks past
 // the CSV, timers, restarts); the swap must be terminal and the channel released.
-func runC16Scripted(r *Run, seed int64, c c26Case) {
+func runC16Scripted(r *Run, seed int64, c c26Case, prop string) {
 	rng := mrand.New(mrand.NewSource(seed))
 	w := sim.NewWorld(seed)
 	defer w.Close()
@@ -369,10 +369,13 @@ func runC16Scripted(r *Run, seed int64, c c26Case) {
 		w.LN.PeerPay(p.ID, a.Payreq)
 		w.Run()
 	}
-	if p.Take(ref.MsgOpeningTxBroadcast) == nil {
+	ann := p.Take(ref.MsgOpeningTxBroadcast)
+	if ann == nil {
 		r.Inconclusive("no announcement")
 		return
 	}
+	var opening swap.OpeningTxBroadcastedMessage
+	json.Unmarshal(ann.Payload, &opening)
 	switch c.behave {
 	case "cancel":
 		p.Send("alice", ref.MsgCancel, &swap.CancelMessage{SwapId: id, Message: "no"})
@@ -396,6 +399,14 @@ func runC16Scripted(r *Run, seed int64, c c26Case) {
 		return ""
 	}
 	afterPeer := state()
+	if c.crash {
+		// the node is restarted while it waits for the CSV to mature (the watchers keep their lists in memory only)
+		if err := m.Restart(); err != nil {
+			r.Inconclusive("restart: " + err.Error())
+			return
+		}
+		w.Run()
+	}
 	// the drain procedure, in logical steps only
 	rounds := 0
 	for ; rounds < 6 && !isTerminal(state()); rounds++ {
@@ -403,7 +414,7 @@ func runC16Scripted(r *Run, seed int64, c c26Case) {
 		w.Run()
 		chain.Mine(int(ref.CSV(c.chain, 7)) + 2)
 		w.Run()
-		if c.crash || rounds > 0 {
+		if rounds > 0 {
 			if err := m.Restart(); err != nil {
 				r.Inconclusive("restart: " + err.Error())
 				return
@@ -421,7 +432,16 @@ func runC16Scripted(r *Run, seed int64, c c26Case) {
 	r.Eval()
 	r.Count("scripted_peer_histories", 1)
 	role := map[string]string{"in": "in/sender", "out": "out/receiver"}[c.typ]
-	r.Seen(fmt.Sprintf("scripted-peer/%s/%s/%s/restart-first=%v/after-peer=%s/final=%s/rounds=%d", c.chain, role, c.behave, c.crash, afterPeer, final, rounds))
+	r.Seen(fmt.Sprintf("scripted-peer/%s/%s/%s/restart-while-waiting=%v/after-peer=%s/final=%s/rounds=%d", c.chain, role, c.behave, c.crash, afterPeer, final, rounds))
+	if prop == "C07" {
+		// the maker's locked funds: the announced output must have been spent by a transaction of the node itself
+		sp := chain.SpentBy(sim.OutRef{TxID: opening.TxId, Vout: opening.ScriptOut})
+		if sp == nil || sp.By != "alice" {
+			r.Violate("refund-after-csv", fmt.Sprintf("C07|refund-never-broadcast|scripted-taker|%s|%s|peer=%s|restart-while-waiting=%v", c.chain, role, c.behave, c.crash),
+				fmt.Sprintf("the CSV matured %d times over, the node was restarted, and the opening output %s:%d is still unspent (state %s, %s when the peer went silent); case %+v seed %d", rounds, opening.TxId, opening.ScriptOut, final, afterPeer, c, seed), traceOf(w))
+		}
+		return
+	}
 	if !isTerminal(final) {
 		r.Violate("bounded-termination", fmt.Sprintf("C16|stuck|%s|%s/%s|peer=%s", c.chain, role, final, c.behave),
 			fmt.Sprintf("after the drain procedure (6 rounds of timers, blocks past the CSV, restarts) the swap is still %s (it was %s when the peer went silent); case %+v seed %d", final, afterPeer, c, seed), traceOf(w))
